@@ -1,8 +1,10 @@
 """C18 — P2P boundary: bounded framing, same-chain peers only, content-addressed blocks.
-spec/p2p/Framing.tla, Handshake.tla, BlockRecv.tla; binding: every finished run / transition of the TLC models is
-concretised and replayed on the real V030ReadWriter, the real v2.0.0 / v0.3.x handshakers and the real block receive
+spec/p2p/Framing.tla, FrameStream.tla, Handshake.tla, BlockRecv.tla; binding: every finished run / behaviour / transition of
+the TLC models is concretised and replayed on the real V030ReadWriter (one pass over a byte stream; a connection carrying a
+sequence of frames whose messages the consumer keeps), the real v2.0.0 / v0.3.x handshakers and the real block receive
 paths of package p2p (harness/p2p/v030, harness/p2p/v200, harness/p2p).  The chain-service side of part (c)
-(chain.addBlock) is hooked in through run_chain_identity()."""
+(chain.addBlock; hand-written families + the sequences of the chain-service component of BlockRecv.tla) runs on real
+nodes through run_chain_identity() / checks/c18_chain.py."""
 import concurrent.futures, hashlib, json, os, random, re, shutil, subprocess, time
 import vlib
 
@@ -14,20 +16,37 @@ MANIFEST = dict(
          "Deterministic = reference parser, CleanFailure); every finished reader run is concretised (length classes -> 0,1,mid,Max,Max+1..2^32-1; "
          "offsets -> inside header / header end / inside payload / end; all sub-protocol ids) and replayed on the real V030ReadWriter under "
          "several chunkings, plus a heap-allocation probe (runtime.MemStats around every ReadMsg) and seeded random byte streams against a "
-         "reference parser.  (b) Handshake.tla: decision procedure of the status handshake (4 protocol versions, both directions, write "
+         "reference parser.  FrameStream.tla: the reader/writer as a stream object - a connection carrying a sequence of frames (payload size "
+         "classes 0, 1, small, frame = bufio buffer +-1, payload = bufio buffer +-1, large, Max, Max+1), every interleaving of WriteMsg and "
+         "ReadMsg calls the transport allows (reads lag writes arbitrarily), four endings (closed, cut inside header / payload, foreign oversize "
+         "header), the consumer keeping every message: ReturnedMessagesImmutable (a message once returned never changes), StreamFidelity (the "
+         "k-th message returned is the k-th written, and stays so), OwnBuffer, CleanFailure, Total, Complete model-checked; every finished "
+         "behaviour replayed on a real V030ReadWriter pair over an in-memory connection, ALL kept messages deep-compared with independent "
+         "copies after every call; the counterexample of the shared-buffer variant of the model is replayed too (must not reproduce).  "
+         "(b) Handshake.tla: decision procedure of the status handshake (4 protocol versions, both directions, write "
          "failures, every combination of field classes) model-checked; every finished run replayed on the real V200/V033/V032/V030 "
          "handshakers over the real framing with several concrete representatives per class; the property (same genesis, compatible chain "
          "id, peer id of the connection) is also evaluated on the concrete message independently of the model.  (c) BlockRecv.tla: the p2p "
          "receive paths for blocks (block-produced notice, new-block notice, GetBlocksResponse to the sync manager and to the chunk "
          "receiver) as intended (digest of the header = announced identifier, else discarded without trace) model-checked; every transition, "
          "seeded interleaved walks and TLC's counterexamples of the as-coded variant (forged block first, genuine afterwards) replayed on "
-         "the real handlers / syncManager / BlocksChunkReceiver with real blocks whose header is altered in each of the 12 digest fields.",
+         "the real handlers / syncManager / BlocksChunkReceiver with real blocks whose header is altered in each of the 12 digest fields.  "
+         "Chain-service component of BlockRecv.tla (ChainService.addBlock behind those paths): genuine blocks of 1..12 transactions, every "
+         "altered copy under the genuine identifier - emptied / shortened / reordered / substituted / extended body, altered header, and "
+         "EVERY body with the genuine transaction root by the merkle padding rule (PadVariants, derived from the Expand operator and "
+         "cross-checked by brute force against the root function) - in every order of <= 3 arrivals: AcceptBinding, ForgedNeverConnected, "
+         "NoPoison, GenuineConnected model-checked; the arrival sequences (copy first, genuine block afterwards; genuine first; two copies) "
+         "replayed on fresh real nodes with blocks made by a real producing node, projection (connected under the identifier? with which "
+         "body? identifier cached as errored?) compared after every arrival; the counterexample of the variant without the repeated-"
+         "transaction guard is replayed too (must not reproduce); plus hand-written header/body alterations on a forking tree in several "
+         "arrival orders.",
     note="codec fidelity for arbitrary payload bytes is sampled, not decided (DESIGN §7); the reference wire layout (4 sub-protocol, 4 length, "
          "8 timestamp, 16+16 ids, big endian) is taken from the protocol description; timeouts of the chunk receiver are not modelled; the "
          "libp2p transport and the peer's request table are harness stubs; the legacy wire version 0.3.1 (still accepted) has no genesis "
          "check by design and is reported as an observation",
     technique="TLA+/TLC exhaustive models; replay of every TLC run/transition and of TLC counterexamples into the real code; direct evaluation of the property on concrete inputs")
 SPEC_DIR = os.path.join(vlib.SPEC, "p2p")
+CHAIN_PKG = "./internal/verifnode/"
 MAXP = (8 << 20) + (256 << 10)      # p2pcommon.MaxPayloadLength (the harness uses the real variable; this is only for choosing families)
 
 
@@ -197,7 +216,7 @@ def stream_families(tier, rng):
         fam("small", 257, 4049, 4097, 16385, 8, "half", "split", fill="frames"),
         fam("true", 100, 4048, 4096, 1 << 20, 16, "one", "rand"),
     ]
-    for _ in range(1 if tier == "quick" else 8):
+    for _ in range(1 if tier == "quick" else 4):
         add = rng.choice([0, 1, 2, 4096])
         fams.append(fam("small", rng.choice(FS_SMALL), rng.choice(FS_FEDGE), rng.choice(FS_PEDGE), rng.choice(FS_LARGE), rng.randrange(1, 48),
                         rng.choice(["zero", "one", "half", "last"]), rng.choice(["all", "rand", "split", "one"]), rng.choice(["rand", "frames"]),
@@ -314,12 +333,13 @@ def scenario_from_trace(name, res):
     return {"name": name, "acts": acts}
 
 
-def run_chain_identity(c):
+def run_chain_identity(c, exe=None, bodies=None):
     """The chain-service side of part (c) (chain.addBlock / ChainService.errBlocks): a forged block must not be stored or
     cached as bad under the announced identifier (DESIGN §6-e).  Forged-before-genuine deliveries on a real node:
-    checks/c18_chain.py + harness/internal/verifnode/verif_identity_test.go."""
+    checks/c18_chain.py + harness/internal/verifnode/verif_identity_test.go (hand-written families on tree T0) and
+    verif_identity_bodies_test.go (the sequences of the chain-service component of BlockRecv.tla)."""
     from checks import c18_chain
-    return c18_chain.run_chain_identity(c)
+    return c18_chain.run_chain_identity(c, exe=exe, bodies=bodies)
 
 
 # --------------------------------------------------------------------------- the check
@@ -330,7 +350,8 @@ def run(c):
     T0[0] = time.time()
     c.rule = ("a case is one replay on the real code: (finished reader run of Framing.tla x family of real lengths/offsets x chunking), "
               "(finished run of Handshake.tla x concrete representative of every field class), (transition / walk step / attack scenario of "
-              "BlockRecv.tla x family of forged headers); distinct = distinct such tuples")
+              "BlockRecv.tla x family of forged headers), (finished behaviour of FrameStream.tla x family of real lengths x chunking), (arrival "
+              "of an arrival sequence of the chain-service component of BlockRecv.tla on a fresh real node); distinct = distinct such tuples")
     c.assumptions = ["reference wire layout of the 48-byte header from the protocol description",
                      "peer request table, actor system and chain accessor are harness stubs; libp2p is not involved",
                      "chunk-receiver timeouts not modelled (ttl 1h in the harness)", "TLC 1.8.0"]
@@ -344,8 +365,7 @@ def run(c):
     jobs = [
         ("fr-mc", "MC_Framing", "MC_Framing.cfg" if quick else "MC_Framing_big.cfg", W, 1500),
         ("fr-gen", "MC_Framing", "Gen_Framing.cfg" if quick else "Gen_Framing_big.cfg", 1, 1500),
-        ("fs-mc", "MC_FrameStream", "MC_FrameStream.cfg" if quick else "MC_FrameStream_big.cfg", W, 1500),
-        ("fs-gen", "MC_FrameStream", "Gen_FrameStream.cfg", 1, 1500),
+        ("fs-gen", "MC_FrameStream", "Gen_FrameStream.cfg", 1, 1500),        # design check + generation in one run
         ("fs-sh", "MC_FrameStream", "MC_FrameStream_shared.cfg", 1, 600),
         ("hs-mc", "MC_Handshake", "MC_Handshake.cfg" if quick else "MC_Handshake_big.cfg", 2, 900),
         ("hs-gen", "MC_Handshake", "Gen_Handshake.cfg" if quick else "Gen_Handshake_big.cfg", 1, 900),
@@ -353,13 +373,17 @@ def run(c):
         ("br-gen", "MC_BlockRecv", "Gen_BlockRecv.cfg" if quick else "Gen_BlockRecv_big.cfg", 1, 1500),
         ("br-ac1", "MC_BlockRecv", "MC_BlockRecv_ascoded.cfg", 1, 600),
         ("br-ac2", "MC_BlockRecv", "MC_BlockRecv_ascoded2.cfg", 1, 600),
+        ("br-cs", "MC_BlockRecvCS", "MC_BlockRecvCS.cfg", 1, 900),         # design check + generation in one run
+        ("br-cs-ng", "MC_BlockRecvCS", "MC_BlockRecvCS_noguard.cfg", 1, 600),
     ]
     if not quick:
         jobs.append(("br-mc2", "MC_BlockRecv", "MC_BlockRecv_big2.cfg", W, 1500))
         jobs.append(("fs-gen2", "MC_FrameStream", "Gen_FrameStream_big.cfg", 1, 1500))
+        jobs.append(("fs-mc", "MC_FrameStream", "MC_FrameStream.cfg", W, 1500))
+        jobs.append(("fs-mc2", "MC_FrameStream", "MC_FrameStream_big.cfg", W, 1500))
     jobs = [j for j in jobs if part_of[j[0][:2]] in parts]
     # the Go harnesses are compiled while TLC runs
-    pkgs = [p for p, need in (("./p2p/v030/", {"a", "b"}), ("./p2p/v200/", {"b"}), ("./p2p/", {"c"})) if need & parts]
+    pkgs = [p for p, need in (("./p2p/v030/", {"a", "b"}), ("./p2p/v200/", {"b"}), ("./p2p/", {"c"}), (CHAIN_PKG, {"c"})) if need & parts]
     with concurrent.futures.ThreadPoolExecutor(max_workers=2) as ex:
         fb = ex.submit(_build_tests, pkgs)
         ft = ex.submit(_tlc_batch, c, jobs)
@@ -389,10 +413,12 @@ def run(c):
                 {"hdr_len": 2, "max": 3, "cases": fr_cases, "families": fr_fams, "random_streams": 800 if quick else 8000,
                  "small_max": SMALL_MAX, "true_every": 12 if quick else 6})
             # the reader/writer as a stream object: interleaved writes and reads, the consumer keeps every message
-            c.require_ok(R["fs-mc"], "FrameStream design: ReturnedMessagesImmutable, StreamFidelity, OwnBuffer, CleanFailure, Total, Complete")
-            c.require_ok(R["fs-gen"], "FrameStream: enumeration of finished behaviours (<= 3 writes, 8 size classes)")
+            c.require_ok(R["fs-gen"], "FrameStream design: ReturnedMessagesImmutable, StreamFidelity, OwnBuffer, CleanFailure, Total, Complete, RefusedWritesSilent "
+                                      "checked on every behaviour prefix + enumeration of the finished behaviours (<= 3 writes, 8 size classes)")
             fs_behs = stream_behaviours(R["fs-gen"].out)
             if not quick:
+                c.require_ok(R["fs-mc"], "FrameStream design, 2 sub-protocols, <= 3 writes")
+                c.require_ok(R["fs-mc2"], "FrameStream design, 2 sub-protocols, <= 4 writes")
                 c.require_ok(R["fs-gen2"], "FrameStream: enumeration of finished behaviours (<= 4 writes, 6 size classes)")
                 fs_behs += stream_behaviours(R["fs-gen2"].out)
             if len(fs_behs) < 10000:
@@ -407,10 +433,10 @@ def run(c):
             # at the node's real MaxPayloadLength: a seeded sample of the behaviours that carry two or more big frames
             big = [i for i, b in enumerate(fs_behs) if sum(1 for x in b["steps"] if x.startswith(("W max", "W large"))) >= 2]
             true_idx = sorted(rng.sample(big, min(len(big), 24 if quick else 600)))
-            sizes["a2"] = "framing as a stream %d finished behaviours (every interleaving of <= %d WriteMsg calls over the size classes with the ReadMsg calls, 4 endings) x %d families" % (
-                len(fs_behs), 3 if quick else 4, len(fs_fams))
+            sizes["a2"] = "framing as a stream %d finished behaviours (every interleaving of <= %d WriteMsg calls over the size classes with the ReadMsg calls, 4 endings) x %s %d families of real lengths" % (
+                len(fs_behs), 3 if quick else 4, "every second of" if quick else "each of", len(fs_fams))
             inp("stream", "./p2p/v030/", "^TestVerifFrameStream$",
-                {"behaviours": fs_behs, "scenarios": fs_scen, "families": fs_fams, "small_max": FS_SMALL_MAX, "true_idx": true_idx})
+                {"behaviours": fs_behs, "scenarios": fs_scen, "families": fs_fams, "small_max": FS_SMALL_MAX, "true_idx": true_idx, "stride": 2 if quick else 1})
         if "b" in parts:
             c.require_ok(R["hs-mc"], "Handshake design: SameChainOnly, Decision, TwinAccepted, Total, InboundSendsAfterAccept")
             c.require_ok(R["hs-gen"], "Handshake: enumeration of finished runs")
@@ -457,16 +483,38 @@ def run(c):
             sizes["c"] = "block identity %d transitions x %d families of forged headers" % (len(T), len(br_fams))
             inp("blockrecv", "./p2p/", "^TestVerifBlockRecv$",
                 {"transitions": T, "walks": blockrecv_walks(T, 60 if quick else 600, 40, rng), "families": br_fams, "scenarios": scenarios})
+            # the chain service behind the receive paths: genuine blocks of 1..12 transactions, every altered copy under the
+            # genuine identifier (incl. every body with the genuine transaction root by the merkle padding rule), every order
+            from checks import c18_chain
+            c.require_ok(R["br-cs"], "BlockRecv chain-service component: AcceptBinding, PaddedAreTheCollisions (PadVariants cross-checked by brute force), "
+                                     "ForgedNeverConnected, NoPoison, GenuineConnected, ForgedNoTraceCs + enumeration of the transitions")
+            r = R["br-cs-ng"]
+            c.add_tlc(r, "BlockRecv chain-service component WITHOUT the repeated-transaction guard: expected counterexample to GenuineConnected")
+            if r.violation != "GenuineConnected" or not r.error_trace:
+                raise vlib.Infra("the chain-service model without the repeated-transaction guard was expected to violate GenuineConnected, TLC says: %s\n%s" % (r.violation, r.out[-2000:]))
+            cx = c18_chain.counterexample_items(r)
+            cs_seqs, cs_stat = c18_chain.chain_body_sequences(vlib.parse_transitions(R["br-cs"].out), c.tier, rng, cx)
+            k = rng.randrange(len(c18_chain.HEADER_FIELDS))
+            chain_bodies = {"sequences": cs_seqs, "header_alts": c18_chain.HEADER_FIELDS[k:] + c18_chain.HEADER_FIELDS[:k]}
+            c.notes.append("chain-service model without the repeated-transaction guard: TLC's counterexample (block of %d transactions: %s) replayed on the real node (must not reproduce)" % (
+                cx[0], [(it["kind"], it["body"]) for it in cx[1]]))
+            sizes["c2"] = "chain service %d arrival sequences over %d altered copies (%d of them bodies with the genuine transaction root by the padding rule) of genuine blocks of 1..%d transactions" % (
+                len(cs_seqs), cs_stat["items"], cs_stat["padded"], cs_stat["sizes"])
         _t("inputs written: " + "; ".join(sizes.values()))
         # the framing harness (with its heap probe, which measures its own process) and the stream harness run first, side by
         # side; then the others side by side
         results = {}
-        for group in ([x for x in plan if x[0] in ("framing", "stream")], [x for x in plan if x[0] not in ("framing", "stream")]):
-            if group:
-                with concurrent.futures.ThreadPoolExecutor(max_workers=len(group)) as ex:
-                    futs = {name: ex.submit(_run_test, exes[pkg], run_, envs[name], cwds[pkg], 3000) for (name, pkg, run_) in group}
-                    for name, f in futs.items():
-                        results[name] = f.result()
+        with concurrent.futures.ThreadPoolExecutor(max_workers=1) as cex:
+            # chain-service side of (c), next to the p2p harnesses (its result is absorbed by that thread; this one only waits meanwhile)
+            chain_fut = cex.submit(run_chain_identity, c, exes[CHAIN_PKG], chain_bodies) if "c" in parts else None
+            for group in ([x for x in plan if x[0] in ("framing", "stream")], [x for x in plan if x[0] not in ("framing", "stream")]):
+                if group:
+                    with concurrent.futures.ThreadPoolExecutor(max_workers=len(group)) as ex:
+                        futs = {name: ex.submit(_run_test, exes[pkg], run_, envs[name], cwds[pkg], 3000) for (name, pkg, run_) in group}
+                        for name, f in futs.items():
+                            results[name] = f.result()
+            if chain_fut:
+                chain_fut.result()
     finally:
         for e in exes.values():
             try:
@@ -488,5 +536,3 @@ def run(c):
     c.exhaustive = True
     c.extra["exhaustive_note"] = ("exhaustive over the abstract models: " + "; ".join(sizes[k] for k in sorted(sizes)) +
                                   ".  Concrete representatives, walks and random streams are sampled.")
-    # ---- chain-service side of (c): built by the coordinator
-    run_chain_identity(c)
